@@ -131,6 +131,13 @@ func sufficient(c Cred, need string) (ok bool, known bool) {
 		return u.Priv[f[1]]&2 != 0, true
 	case "rw":
 		return u.Priv[f[1]]&1 != 0 && u.Priv[f[2]]&2 != 0, true
+	case "reads": // READ on every named database (statements reading several databases)
+		for _, d := range f[1:] {
+			if u.Priv[d]&1 == 0 {
+				return false, true
+			}
+		}
+		return true, true
 	case "any":
 		return u.Priv[f[1]] != 0, true
 	}
